@@ -9,7 +9,7 @@
 # Results are appended to <delivery dir>/verify.log; nothing is written to /repo.
 set -u
 dir=$(readlink -f "$1"); prop=$2; crate=$3; tname=$4
-wt=/tmp/seedv/wt
+wt=${SEEDV_WT:-/tmp/seedv/wt}
 log="$dir/verify.log"
 if [ "${MONITOR_ONLY:-0}" = 1 ]; then
   # re-run of the monitor only (after the monitor was strengthened); the confirmation part of verify.log is kept
